@@ -50,7 +50,7 @@ def run(tier):
     jobs = []
     for dt in dts:
         req = dt in base_dts
-        tmo = (300 if tier == "quick" else 450) if req else 900
+        tmo = (450 if tier == "quick" else 600) if req else 900
         maxstop = 3
         for st in range(0, maxstop + 1):
             for col in (0, 1):
